@@ -201,7 +201,9 @@ Fixpoint arraylike_b (v : aval) (s : list nat) {struct v} : bool :=
   match v with
   | AList xs | ATuple xs =>
       match s with
-      | n :: s' => Nat.eqb n (length xs) && forallb (fun x => arraylike_b x s') xs
+      | n :: s' => Nat.eqb n (length xs)
+                   && (negb (Nat.eqb (length xs) 0) || shape_eqb s' [])
+                   && forallb (fun x => arraylike_b x s') xs
       | [] => false
       end
   | _ => numeric_b v && shape_eqb (shape_of v) s
@@ -482,17 +484,17 @@ Lemma arraylike_b_spec : forall v s, arraylike_b v s = true <-> ArrayLike v s.
 Proof.
   induction v using aval_ind'; intros s.
   - destruct s as [|n s']; simpl; [split; [discriminate|tauto]|].
-    rewrite andb_true_iff, Nat.eqb_eq.
+    rewrite !andb_true_iff, orb_true_iff, Nat.eqb_eq, shape_eqb_eq, length_zero_b.
     assert (E : forallb (fun x => arraylike_b x s') xs = true <->
                 (fix all (l : list aval) : Prop := match l with [] => True | x :: r => ArrayLike x s' /\ all r end) xs).
     { induction H as [|x l Hx Hl IH]; simpl; [tauto|]. rewrite andb_true_iff, Hx, IH. tauto. }
-    rewrite E. tauto.
+    rewrite E. clear E H. destruct xs as [|x0 xs0]; intuition congruence.
   - destruct s as [|n s']; simpl; [split; [discriminate|tauto]|].
-    rewrite andb_true_iff, Nat.eqb_eq.
+    rewrite !andb_true_iff, orb_true_iff, Nat.eqb_eq, shape_eqb_eq, length_zero_b.
     assert (E : forallb (fun x => arraylike_b x s') xs = true <->
                 (fix all (l : list aval) : Prop := match l with [] => True | x :: r => ArrayLike x s' /\ all r end) xs).
     { induction H as [|x l Hx Hl IH]; simpl; [tauto|]. rewrite andb_true_iff, Hx, IH. tauto. }
-    rewrite E. tauto.
+    rewrite E. clear E H. destruct xs as [|x0 xs0]; intuition congruence.
   - simpl. split; [discriminate | intros [K _]; contradiction].
   - destruct H as [H|H]; [|subst; simpl; split; [discriminate | intros [K _]; contradiction]].
     destruct v; simpl in H; try discriminate; simpl;
@@ -511,3 +513,928 @@ Proof.
   - destruct s, r; simpl; intros H; try discriminate; constructor.
   - intros H. destruct H; reflexivity.
 Qed.
+
+(* ------------------------------------------- Part 2: validators vs specification *)
+
+(* ---- object-type gates *)
+Lemma gate_jetode_reflects : forall o, gate_jetode o = Accept <-> IsJetOde o.
+Proof.
+  intros o. unfold IsJetOde. destruct o; simpl; split; intros H; try discriminate;
+    try (destruct H as [? H]; discriminate); try reflexivity.
+  exists order. reflexivity.
+Qed.
+
+Lemma gate_jetresidual_reflects : forall o, gate_jetresidual o = Accept <-> IsJetResidual o.
+Proof.
+  intros o. unfold IsJetResidual. destruct o; simpl; split; intros H; try discriminate;
+    try (destruct H as [? H]; discriminate); try reflexivity.
+  exists order. reflexivity.
+Qed.
+
+Lemma gate_posterior_reflects : forall o, gate_posterior o = Accept <-> IsMarkovSeq o.
+Proof.
+  intros o. unfold IsMarkovSeq. destruct o; simpl; split; intros H; try discriminate; reflexivity.
+Qed.
+
+Lemma gates_reject_with_TypeError : forall o,
+    (gate_jetode o = Accept \/ gate_jetode o = TypeErr) /\
+    (gate_jetresidual o = Accept \/ gate_jetresidual o = TypeErr) /\
+    (gate_posterior o = Accept \/ gate_posterior o = TypeErr).
+Proof. intros o. destruct o; simpl; auto. Qed.
+
+(* ---- lifts *)
+Lemma lift_construct_reflects : forall lb, lift_construct lb = Accept <-> exists z, lb = Some z.
+Proof.
+  intros [z|]; simpl; split; intros H; try reflexivity; try discriminate.
+  - exists z. reflexivity.
+  - destruct H as [z H]. discriminate.
+Qed.
+
+Lemma lift_residual_use_reflects : forall k n z,
+    lift_residual_use k n z = Accept <-> lift_in_range k n z.
+Proof.
+  intros k n z. unfold lift_residual_use, lift_in_range.
+  destruct (z <? 0)%Z eqn:E1; simpl.
+  - apply Z.ltb_lt in E1. split; [discriminate | lia].
+  - apply Z.ltb_ge in E1.
+    destruct (Z.of_nat n - Z.of_nat k <? z)%Z eqn:E2.
+    + apply Z.ltb_lt in E2. split; [discriminate | lia].
+    + apply Z.ltb_ge in E2. split; [lia | reflexivity].
+Qed.
+
+Lemma lift_residual_use_rejects_with_ValueError : forall k n z,
+    lift_residual_use k n z = Accept \/ lift_residual_use k n z = ValueErr.
+Proof.
+  intros. unfold lift_residual_use.
+  destruct ((z <? 0)%Z || (Z.of_nat n - Z.of_nat k <? z)%Z); auto.
+Qed.
+
+(* an ODE of order k is the residual u^(k) - f(u, ..., u^(k-1)) of order k+1 *)
+Lemma lift_ode_use_reflects : forall k n z,
+    lift_ode_use k n z = Accept <-> lift_in_range (S k) n z.
+Proof.
+  intros k n z. unfold lift_ode_use, lift_in_range.
+  destruct (z <? 0)%Z eqn:E1.
+  - apply Z.ltb_lt in E1. split; [discriminate | lia].
+  - apply Z.ltb_ge in E1.
+    destruct (Z.of_nat n <? Z.of_nat k + z + 1)%Z eqn:E2.
+    + apply Z.ltb_lt in E2. split; [discriminate | lia].
+    + apply Z.ltb_ge in E2. split; [lia | reflexivity].
+Qed.
+
+(* ---- residual-based error estimate *)
+Lemma error_residual_reflects_iso_blockdiag : forall f m d,
+    f <> Dense -> (error_residual_check f m d = Accept <-> WfErrorResidual m d).
+Proof.
+  intros f m d Hf. unfold WfErrorResidual. destruct f; [congruence| |]; simpl;
+    destruct (Nat.eqb_spec m d); split; intros H; try reflexivity; try discriminate; congruence.
+Qed.
+
+Lemma error_residual_dense_accepts_exactly : forall m d,
+    error_residual_check Dense m d = Accept <-> m = 1 \/ m = d.
+Proof.
+  intros m d. simpl.
+  destruct (Nat.eqb_spec m 1); destruct (Nat.eqb_spec m d); simpl;
+    split; intros H; try reflexivity; try discriminate; auto; destruct H; congruence.
+Qed.
+
+(* the gap: a single constraint row is broadcast against a state with 3 entries *)
+Lemma error_residual_dense_refuted :
+  exists m d, error_residual_check Dense m d = Accept /\ ~ WfErrorResidual m d.
+Proof. exists 1, 3. split; [reflexivity | unfold WfErrorResidual; discriminate]. Qed.
+
+(* ---- ensembles *)
+Lemma matfree_check_reflects : forall ens n, matfree_check ens n = Accept <-> WfEnsembles ens n.
+Proof.
+  intros ens n. unfold matfree_check, WfEnsembles.
+  destruct (Nat.ltb ens n) eqn:E.
+  - apply Nat.ltb_lt in E. split; [discriminate | lia].
+  - apply Nat.ltb_ge in E. split; [intros _; exact E | reflexivity].
+Qed.
+
+(* ---- suitability warnings *)
+Lemma warns_reflects : forall s r,
+    warns s r = true <-> Unsuitable s r /\ r <> RSaveAt false.
+Proof.
+  intros s r. rewrite <- unsuitable_b_spec.
+  destruct s; destruct r as [[]| | |]; simpl; split; intros H;
+    try discriminate; try reflexivity;
+    try (split; [reflexivity | discriminate]);
+    try (destruct H as [H1 H2]; try discriminate; try (exfalso; apply H2; reflexivity)).
+Qed.
+
+(* ---- calibrated output scale of transition() *)
+Lemma oshape_eqb_some : forall o s, oshape_eqb o (Some s) = true <-> o = Some s.
+Proof.
+  intros [t|] s; simpl; [rewrite shape_eqb_eq|]; split; intros H; try discriminate; congruence.
+Qed.
+
+Lemma array_shape_reflects : forall v s,
+    (array_like v = true /\ np_shape v = Some s) <-> ArrayLike v s.
+Proof.
+  induction v using aval_ind'; intros s.
+  - (* list *)
+    destruct xs as [|x r].
+    + simpl. destruct s as [|n s']; [split; [intros [_ K]; discriminate | tauto]|].
+      split.
+      * intros [_ K]. inversion K; subst. simpl. auto.
+      * intros [K1 [K2 _]]. simpl in K1. subst. rewrite (K2 eq_refl). auto.
+    + inversion H as [|x' r' Hx Hr]; subst.
+      change (array_like (AList (x :: r))) with (array_like x && forallb array_like r).
+      change (np_shape (AList (x :: r))) with
+        (match np_shape x with
+         | Some s0 => if forallb (fun y => oshape_eqb (np_shape y) (Some s0)) r
+                      then Some (length (x :: r) :: s0) else None
+         | None => None
+         end).
+      assert (R : forall s0,
+                 (forallb array_like r = true /\ forallb (fun y => oshape_eqb (np_shape y) (Some s0)) r = true) <->
+                 (fix all (l : list aval) : Prop := match l with [] => True | y :: r' => ArrayLike y s0 /\ all r' end) r).
+      { intros s0. clear Hx H. induction Hr as [|y l Hy Hl IH]; simpl; [tauto|].
+        rewrite !andb_true_iff, oshape_eqb_some, <- IH, <- (Hy s0). tauto. }
+      destruct s as [|n s'].
+      * simpl. split; [|tauto]. intros [_ K]. destruct (np_shape x); [|discriminate].
+        match type of K with context [if ?c then _ else _] => destruct c end; discriminate.
+      * simpl ArrayLike. rewrite <- (R s'), <- (Hx s'), andb_true_iff. split.
+        -- intros [[A1 A2] K]. destruct (np_shape x) as [s0|]; [|discriminate].
+           destruct (forallb (fun y => oshape_eqb (np_shape y) (Some s0)) r) eqn:E; [|discriminate].
+           inversion K; subst. repeat split; auto. discriminate.
+        -- intros [K1 [_ [[A1 A2] [A3 A4]]]]. rewrite A2, A4. subst. auto.
+  - (* tuple *)
+    destruct xs as [|x r].
+    + simpl. destruct s as [|n s']; [split; [intros [_ K]; discriminate | tauto]|].
+      split.
+      * intros [_ K]. inversion K; subst. simpl. auto.
+      * intros [K1 [K2 _]]. simpl in K1. subst. rewrite (K2 eq_refl). auto.
+    + inversion H as [|x' r' Hx Hr]; subst.
+      change (array_like (ATuple (x :: r))) with (array_like x && forallb array_like r).
+      change (np_shape (ATuple (x :: r))) with
+        (match np_shape x with
+         | Some s0 => if forallb (fun y => oshape_eqb (np_shape y) (Some s0)) r
+                      then Some (length (x :: r) :: s0) else None
+         | None => None
+         end).
+      assert (R : forall s0,
+                 (forallb array_like r = true /\ forallb (fun y => oshape_eqb (np_shape y) (Some s0)) r = true) <->
+                 (fix all (l : list aval) : Prop := match l with [] => True | y :: r' => ArrayLike y s0 /\ all r' end) r).
+      { intros s0. clear Hx H. induction Hr as [|y l Hy Hl IH]; simpl; [tauto|].
+        rewrite !andb_true_iff, oshape_eqb_some, <- IH, <- (Hy s0). tauto. }
+      destruct s as [|n s'].
+      * simpl. split; [|tauto]. intros [_ K]. destruct (np_shape x); [|discriminate].
+        match type of K with context [if ?c then _ else _] => destruct c end; discriminate.
+      * simpl ArrayLike. rewrite <- (R s'), <- (Hx s'), andb_true_iff. split.
+        -- intros [[A1 A2] K]. destruct (np_shape x) as [s0|]; [|discriminate].
+           destruct (forallb (fun y => oshape_eqb (np_shape y) (Some s0)) r) eqn:E; [|discriminate].
+           inversion K; subst. repeat split; auto. discriminate.
+        -- intros [K1 [_ [[A1 A2] [A3 A4]]]]. rewrite A2, A4. subst. auto.
+  - simpl. split; [intros [K _]; discriminate | intros [K _]; contradiction].
+  - destruct H as [H|H]; [|subst; simpl; split; [intros [K _]; discriminate | intros [K _]; contradiction]].
+    destruct v; simpl in H; try discriminate; simpl;
+      split; intros K; decompose [and] K; try discriminate; try contradiction;
+        try (split; [exact I | congruence]); try (split; [reflexivity | congruence]).
+Qed.
+
+Lemma transition_check_reflects : forall expected cal,
+    transition_check expected cal = Accept <-> WfCal expected cal.
+Proof.
+  intros e cal. unfold transition_check, WfCal. rewrite <- array_shape_reflects.
+  destruct (array_like cal); simpl; [|split; [discriminate | intros [K _]; discriminate]].
+  destruct (np_shape cal) as [s|]; [|split; [discriminate | intros [_ K]; discriminate]].
+  destruct (shape_eqb s e) eqn:E.
+  - apply shape_eqb_eq in E. subst. tauto.
+  - split; [discriminate|]. intros [_ K]. inversion K; subst. rewrite shape_eqb_refl in E. discriminate.
+Qed.
+
+(* ---- unfolding lemmas for the nested fixpoints *)
+Fixpoint zip_pairs (f : aval -> aval -> option (list (aval * aval))) (xs ys : list aval)
+  : option (list (aval * aval)) :=
+  match xs, ys with
+  | [], [] => Some []
+  | x :: xs', y :: ys' =>
+      match f x y, zip_pairs f xs' ys' with
+      | Some p, Some q => Some (p ++ q)
+      | _, _ => None
+      end
+  | _, _ => None
+  end.
+
+Fixpoint zip_pairs_kv (f : aval -> aval -> option (list (aval * aval))) (xs ys : list (nat * aval))
+  : option (list (aval * aval)) :=
+  match xs, ys with
+  | [], [] => Some []
+  | (k, x) :: xs', (k', y) :: ys' =>
+      if Nat.eqb k k' then
+        match f x y, zip_pairs_kv f xs' ys' with
+        | Some p, Some q => Some (p ++ q)
+        | _, _ => None
+        end
+      else None
+  | _, _ => None
+  end.
+
+Lemma prefix_pairs_list : forall xs ys,
+    prefix_pairs (AList xs) (AList ys) = zip_pairs prefix_pairs xs ys.
+Proof.
+  induction xs as [|x xs IH]; intros [|y ys]; simpl; auto.
+  specialize (IH ys). simpl in IH. rewrite IH. reflexivity.
+Qed.
+
+Lemma prefix_pairs_tuple : forall xs ys,
+    prefix_pairs (ATuple xs) (ATuple ys) = zip_pairs prefix_pairs xs ys.
+Proof.
+  induction xs as [|x xs IH]; intros [|y ys]; simpl; auto.
+  specialize (IH ys). simpl in IH. rewrite IH. reflexivity.
+Qed.
+
+Lemma prefix_pairs_dict : forall xs ys,
+    prefix_pairs (ADict xs) (ADict ys) = zip_pairs_kv prefix_pairs xs ys.
+Proof.
+  induction xs as [|[k x] xs IH]; intros [|[k' y] ys]; simpl; auto.
+  specialize (IH ys). simpl in IH. rewrite IH. reflexivity.
+Qed.
+
+Inductive Forall2kv (P : aval -> aval -> Prop) : list (nat * aval) -> list (nat * aval) -> Prop :=
+| F2kv_nil : Forall2kv P [] []
+| F2kv_cons : forall k x xs y ys, P x y -> Forall2kv P xs ys -> Forall2kv P ((k, x) :: xs) ((k, y) :: ys).
+
+Lemma SameShape_list : forall xs ys,
+    SameShape (AList xs) (AList ys) <-> xs <> [] /\ Forall2 SameShape xs ys.
+Proof.
+  intros xs ys. simpl.
+  assert (E : forall xs ys,
+             (fix go (xs ys : list aval) : Prop :=
+                match xs, ys with [] , [] => True | x :: xs', y :: ys' => SameShape x y /\ go xs' ys' | _, _ => False end) xs ys
+             <-> Forall2 SameShape xs ys).
+  { induction xs0 as [|x xs0 IH]; intros [|y ys0]; simpl.
+    - split; auto.
+    - split; [tauto | intros K; inversion K].
+    - split; [tauto | intros K; inversion K].
+    - rewrite IH. split; [intros [A B]; constructor; auto | intros K; inversion K; auto]. }
+  rewrite E. tauto.
+Qed.
+
+Lemma SameShape_tuple : forall xs ys,
+    SameShape (ATuple xs) (ATuple ys) <-> xs <> [] /\ Forall2 SameShape xs ys.
+Proof.
+  intros xs ys. simpl.
+  assert (E : forall xs ys,
+             (fix go (xs ys : list aval) : Prop :=
+                match xs, ys with [] , [] => True | x :: xs', y :: ys' => SameShape x y /\ go xs' ys' | _, _ => False end) xs ys
+             <-> Forall2 SameShape xs ys).
+  { induction xs0 as [|x xs0 IH]; intros [|y ys0]; simpl.
+    - split; auto.
+    - split; [tauto | intros K; inversion K].
+    - split; [tauto | intros K; inversion K].
+    - rewrite IH. split; [intros [A B]; constructor; auto | intros K; inversion K; auto]. }
+  rewrite E. tauto.
+Qed.
+
+Lemma SameShape_dict : forall xs ys,
+    SameShape (ADict xs) (ADict ys) <-> xs <> [] /\ Forall2kv SameShape xs ys.
+Proof.
+  intros xs ys. simpl.
+  assert (E : forall xs ys,
+             (fix go (xs ys : list (nat * aval)) : Prop :=
+                match xs, ys with
+                | [], [] => True
+                | (k, x) :: xs', (k', y) :: ys' => k = k' /\ SameShape x y /\ go xs' ys'
+                | _, _ => False end) xs ys
+             <-> Forall2kv SameShape xs ys).
+  { induction xs0 as [|[k x] xs0 IH]; intros [|[k' y] ys0]; simpl.
+    - split; [constructor | auto].
+    - split; [tauto | intros K; inversion K].
+    - split; [tauto | intros K; inversion K].
+    - rewrite IH. split.
+      + intros [A [B C]]. subst. constructor; auto.
+      + intros K. inversion K; subst. auto. }
+  rewrite E. tauto.
+Qed.
+
+Lemma CoeffTree_list : forall xs, CoeffTree (AList xs) <-> xs <> [] /\ Forall CoeffTree xs.
+Proof.
+  intros xs. simpl.
+  assert (E : forall l, (fix all (l : list aval) : Prop := match l with [] => True | x :: r => CoeffTree x /\ all r end) l
+                        <-> Forall CoeffTree l).
+  { induction l as [|x l IH]; simpl; [split; auto|].
+    rewrite IH. split; [intros [A B]; constructor; auto | intros K; inversion K; auto]. }
+  rewrite E. tauto.
+Qed.
+
+Lemma CoeffTree_tuple : forall xs, CoeffTree (ATuple xs) <-> xs <> [] /\ Forall CoeffTree xs.
+Proof.
+  intros xs. simpl.
+  assert (E : forall l, (fix all (l : list aval) : Prop := match l with [] => True | x :: r => CoeffTree x /\ all r end) l
+                        <-> Forall CoeffTree l).
+  { induction l as [|x l IH]; simpl; [split; auto|].
+    rewrite IH. split; [intros [A B]; constructor; auto | intros K; inversion K; auto]. }
+  rewrite E. tauto.
+Qed.
+
+Lemma CoeffTree_dict : forall kvs,
+    CoeffTree (ADict kvs) <-> kvs <> [] /\ Forall (fun kv => CoeffTree (snd kv)) kvs.
+Proof.
+  intros kvs. simpl.
+  assert (E : forall l, (fix all (l : list (nat * aval)) : Prop :=
+                           match l with [] => True | (_, x) :: r => CoeffTree x /\ all r end) l
+                        <-> Forall (fun kv => CoeffTree (snd kv)) l).
+  { induction l as [|[k x] l IH]; simpl; [split; auto|].
+    rewrite IH. split; [intros [A B]; constructor; auto | intros K; inversion K; auto]. }
+  rewrite E. tauto.
+Qed.
+
+(* ---- observation-noise containers of the losses *)
+Definition pairs_ok (ps : list (aval * aval)) : bool :=
+  forallb (fun ab : aval * aval => is_leaf (snd ab)) ps && pairs_shapes_equal ps.
+
+Lemma pairs_ok_app : forall p q, pairs_ok (p ++ q) = pairs_ok p && pairs_ok q.
+Proof.
+  intros p q. unfold pairs_ok, pairs_shapes_equal. rewrite !forallb_app.
+  destruct (forallb _ p), (forallb _ q), (forallb _ p), (forallb _ q); reflexivity.
+Qed.
+
+Definition loss_ok (std e : aval) : Prop :=
+  all_numeric std = true /\ exists ps, prefix_pairs std e = Some ps /\ pairs_ok ps = true.
+
+Lemma loss_ok_zip : forall xs,
+    Forall (fun x => forall e, CoeffTree e -> (loss_ok x e <-> SameShape x e)) xs ->
+    forall ys, Forall CoeffTree ys ->
+      ((forallb all_numeric xs = true /\ exists ps, zip_pairs prefix_pairs xs ys = Some ps /\ pairs_ok ps = true)
+       <-> Forall2 SameShape xs ys).
+Proof.
+  intros xs H. induction H as [|x xs Hx Hxs IH]; intros [|y ys] Hys; simpl.
+  - split; [constructor | intros _; split; [reflexivity | exists []; auto]].
+  - split; [intros [_ [ps [K _]]]; discriminate | intros K; inversion K].
+  - split; [intros [_ [ps [K _]]]; discriminate | intros K; inversion K].
+  - inversion Hys as [|y' ys' Hy Hys']; subst.
+    specialize (IH ys Hys'). specialize (Hx y Hy). unfold loss_ok in Hx.
+    split.
+    + intros [A [ps [K1 K2]]]. apply andb_true_iff in A. destruct A as [A1 A2].
+      destruct (prefix_pairs x y) as [p|] eqn:Ep; [|discriminate].
+      destruct (zip_pairs prefix_pairs xs ys) as [q|] eqn:Eq; [|discriminate].
+      inversion K1; subst. rewrite pairs_ok_app in K2. apply andb_true_iff in K2. destruct K2 as [K2 K3].
+      constructor.
+      * apply Hx. split; [exact A1 | exists p; auto].
+      * apply IH. split; [exact A2 | exists q; auto].
+    + intros K. inversion K as [|x0 y0 xs0 ys0 P1 P2]; subst.
+      apply Hx in P1. destruct P1 as [A1 [p [Ep Kp]]].
+      apply IH in P2. destruct P2 as [A2 [q [Eq Kq]]].
+      split; [rewrite A1, A2; reflexivity|].
+      exists (p ++ q). rewrite Ep, Eq, pairs_ok_app, Kp, Kq. auto.
+Qed.
+
+Lemma loss_ok_zip_kv : forall xs,
+    Forall (fun kv => forall e, CoeffTree e -> (loss_ok (snd kv) e <-> SameShape (snd kv) e)) xs ->
+    forall ys, Forall (fun kv => CoeffTree (snd kv)) ys ->
+      ((forallb (fun kv : nat * aval => match kv with (_, x) => all_numeric x end) xs = true /\
+        exists ps, zip_pairs_kv prefix_pairs xs ys = Some ps /\ pairs_ok ps = true)
+       <-> Forall2kv SameShape xs ys).
+Proof.
+  intros xs H. induction H as [|[k x] xs Hx Hxs IH]; intros [|[k' y] ys] Hys; simpl.
+  - split; [constructor | intros _; split; [reflexivity | exists []; auto]].
+  - split; [intros [_ [ps [K _]]]; discriminate | intros K; inversion K].
+  - split; [intros [_ [ps [K _]]]; discriminate | intros K; inversion K].
+  - inversion Hys as [|y' ys' Hy Hys']; subst. simpl in Hy, Hx.
+    specialize (IH ys Hys'). specialize (Hx y Hy). unfold loss_ok in Hx.
+    split.
+    + intros [A [ps [K1 K2]]]. apply andb_true_iff in A. destruct A as [A1 A2].
+      destruct (Nat.eqb_spec k k'); [subst|discriminate].
+      destruct (prefix_pairs x y) as [p|] eqn:Ep; [|discriminate].
+      destruct (zip_pairs_kv prefix_pairs xs ys) as [q|] eqn:Eq; [|discriminate].
+      inversion K1; subst. rewrite pairs_ok_app in K2. apply andb_true_iff in K2. destruct K2 as [K2 K3].
+      constructor.
+      * apply Hx. split; [exact A1 | exists p; auto].
+      * apply IH. split; [exact A2 | exists q; auto].
+    + intros K. inversion K as [|k0 x0 xs0 y0 ys0 P1 P2]; subst.
+      apply Hx in P1. destruct P1 as [A1 [p [Ep Kp]]].
+      apply IH in P2. destruct P2 as [A2 [q [Eq Kq]]].
+      split; [rewrite A1, A2; reflexivity|].
+      exists (p ++ q). rewrite Nat.eqb_refl, Ep, Eq, pairs_ok_app, Kp, Kq. auto.
+Qed.
+
+Lemma zip_pairs_nil_l : forall f ys ps, zip_pairs f [] ys = Some ps -> ys = [].
+Proof. intros f [|y ys] ps H; simpl in H; [reflexivity | discriminate]. Qed.
+
+Lemma Forall2_nil_l : forall (A B : Type) (P : A -> B -> Prop) ys, Forall2 P [] ys -> ys = [].
+Proof. intros A B P ys H. inversion H. reflexivity. Qed.
+
+Lemma loss_ok_reflects : forall std e, CoeffTree e -> (loss_ok std e <-> SameShape std e).
+Proof.
+  induction std using aval_ind'; intros e He.
+  - (* list *)
+    destruct e; try (split; [intros [_ [ps [K _]]]; simpl in K; discriminate | simpl; tauto]).
+    apply CoeffTree_list in He. destruct He as [Hne He].
+    rewrite SameShape_list. unfold loss_ok. rewrite prefix_pairs_list.
+    change (all_numeric (AList xs)) with (forallb all_numeric xs).
+    rewrite (loss_ok_zip xs H xs0 He). split.
+    + intros K. split; [|exact K]. intros ->. apply Forall2_nil_l in K. congruence.
+    + tauto.
+  - (* tuple *)
+    destruct e; try (split; [intros [_ [ps [K _]]]; simpl in K; discriminate | simpl; tauto]).
+    apply CoeffTree_tuple in He. destruct He as [Hne He].
+    rewrite SameShape_tuple. unfold loss_ok. rewrite prefix_pairs_tuple.
+    change (all_numeric (ATuple xs)) with (forallb all_numeric xs).
+    rewrite (loss_ok_zip xs H xs0 He). split.
+    + intros K. split; [|exact K]. intros ->. apply Forall2_nil_l in K. congruence.
+    + tauto.
+  - (* dict *)
+    destruct e; try (split; [intros [_ [ps [K _]]]; simpl in K; discriminate | simpl; tauto]).
+    apply CoeffTree_dict in He. destruct He as [Hne He].
+    rewrite SameShape_dict. unfold loss_ok. rewrite prefix_pairs_dict.
+    change (all_numeric (ADict kvs)) with
+      (forallb (fun kv : nat * aval => match kv with (_, x) => all_numeric x end) kvs).
+    rewrite (loss_ok_zip_kv kvs H kvs0 He). split.
+    + intros K. split; [|exact K]. intros ->. inversion K; subst. congruence.
+    + tauto.
+  - destruct H as [H|H].
+    + (* a leaf of std against e *)
+      assert (E : prefix_pairs std e = Some [(std, e)]) by (destruct std; simpl in H; try discriminate; reflexivity).
+      assert (S1 : SameShape std e <-> Numeric std /\ Numeric e /\ shape_of std = shape_of e)
+        by (destruct std; simpl in H; try discriminate; destruct e; simpl; tauto).
+      assert (A1 : all_numeric std = numeric_leaf std) by (destruct std; simpl in H; try discriminate; reflexivity).
+      rewrite S1. unfold loss_ok. rewrite E, A1. split.
+      * intros [N [ps [K1 K2]]]. inversion K1; subst.
+        unfold pairs_ok, pairs_shapes_equal in K2. simpl in K2.
+        rewrite !andb_true_r in K2. apply andb_true_iff in K2. destruct K2 as [L Sh].
+        apply shape_eqb_eq in Sh.
+        split; [apply numeric_b_spec; exact N|]. split; [|exact Sh].
+        destruct e; simpl in L; try discriminate; simpl in He; try exact I; try contradiction.
+      * intros [N1 [N2 Sh]]. split; [apply numeric_b_spec; exact N1|].
+        exists [(std, e)]. split; [reflexivity|].
+        unfold pairs_ok, pairs_shapes_equal. simpl. rewrite !andb_true_r.
+        apply andb_true_iff. split.
+        -- destruct e; simpl in N2; try contradiction; reflexivity.
+        -- apply shape_eqb_eq. exact Sh.
+    + subst. unfold loss_ok. simpl. split.
+      * intros [_ [ps [K _]]]. destruct e; try discriminate. simpl in He. contradiction.
+      * tauto.
+Qed.
+
+Lemma loss_std_check_reflects : forall std expected,
+    CoeffTree expected -> (loss_std_check std expected = Accept <-> WfLossStd std expected).
+Proof.
+  intros std e He. unfold WfLossStd. rewrite <- (loss_ok_reflects std e He).
+  unfold loss_std_check, loss_ok.
+  destruct (all_numeric std); simpl; [|split; [discriminate | intros [K _]; discriminate]].
+  destruct (prefix_pairs std e) as [ps|]; [|split; [discriminate | intros [_ [ps [K _]]]; discriminate]].
+  fold (pairs_ok ps). destruct (pairs_ok ps) eqn:E.
+  - split; [intros _; split; [reflexivity | exists ps; auto] | reflexivity].
+  - split; [discriminate | intros [_ [ps' [K1 K2]]]; inversion K1; subst; congruence].
+Qed.
+
+Lemma loss_std_check_rejects_loudly : forall std expected,
+    loss_std_check std expected = Accept \/ loss_std_check std expected = ValueErr \/
+    loss_std_check std expected = OtherErr.
+Proof.
+  intros. unfold loss_std_check. destruct (all_numeric std); simpl; auto.
+  destruct (prefix_pairs std expected); auto.
+  destruct (_ && _); auto.
+Qed.
+
+Lemma loss_timeseries_check_reflects : forall post std expected,
+    CoeffTree expected ->
+    (loss_timeseries_check post std expected = Accept <-> IsMarkovSeq post /\ WfLossStd std expected).
+Proof.
+  intros post std e He. unfold loss_timeseries_check.
+  rewrite <- (loss_std_check_reflects std e He), <- gate_posterior_reflects.
+  destruct (gate_posterior post) eqn:E; split; intros K; try discriminate; try tauto;
+    destruct K as [K _]; discriminate.
+Qed.
+
+(* ---- verify_taylor_coefficient_pytree *)
+Lemma Regular_list : forall xs, Regular (AList xs) <-> xs <> [] /\ Forall Regular xs.
+Proof.
+  intros xs. simpl.
+  assert (E : forall l, (fix all (l : list aval) : Prop := match l with [] => True | x :: r => Regular x /\ all r end) l
+                        <-> Forall Regular l).
+  { induction l as [|x l IH]; simpl; [split; auto|].
+    rewrite IH. split; [intros [A B]; constructor; auto | intros K; inversion K; auto]. }
+  rewrite E. tauto.
+Qed.
+
+Lemma Regular_tuple : forall xs, Regular (ATuple xs) <-> xs <> [] /\ Forall Regular xs.
+Proof.
+  intros xs. simpl.
+  assert (E : forall l, (fix all (l : list aval) : Prop := match l with [] => True | x :: r => Regular x /\ all r end) l
+                        <-> Forall Regular l).
+  { induction l as [|x l IH]; simpl; [split; auto|].
+    rewrite IH. split; [intros [A B]; constructor; auto | intros K; inversion K; auto]. }
+  rewrite E. tauto.
+Qed.
+
+Lemma Regular_dict : forall kvs, Regular (ADict kvs) <-> kvs <> [] /\ Forall (fun kv => Regular (snd kv)) kvs.
+Proof.
+  intros kvs. simpl.
+  assert (E : forall l, (fix all (l : list (nat * aval)) : Prop :=
+                           match l with [] => True | (_, x) :: r => Regular x /\ all r end) l
+                        <-> Forall (fun kv => Regular (snd kv)) l).
+  { induction l as [|[k x] l IH]; simpl; [split; auto|].
+    rewrite IH. split; [intros [A B]; constructor; auto | intros K; inversion K; auto]. }
+  rewrite E. tauto.
+Qed.
+
+(* regular trees with numeric leaves are exactly the coefficient trees *)
+Lemma coefftree_regular_numeric : forall a, CoeffTree a <-> Regular a /\ all_numeric a = true.
+Proof.
+  induction a using aval_ind'.
+  - rewrite CoeffTree_list, Regular_list. change (all_numeric (AList xs)) with (forallb all_numeric xs).
+    assert (E : Forall CoeffTree xs <-> Forall Regular xs /\ forallb all_numeric xs = true).
+    { induction H as [|x l Hx Hl IH]; simpl.
+      - split; [intros _; split; [constructor | reflexivity] | intros _; constructor].
+      - rewrite andb_true_iff. split.
+        + intros K. inversion K; subst. apply Hx in H1. apply IH in H2.
+          destruct H1, H2. repeat split; auto.
+        + intros [K1 [K2 K3]]. inversion K1; subst. constructor; [apply Hx; auto | apply IH; auto]. }
+    rewrite E. tauto.
+  - rewrite CoeffTree_tuple, Regular_tuple. change (all_numeric (ATuple xs)) with (forallb all_numeric xs).
+    assert (E : Forall CoeffTree xs <-> Forall Regular xs /\ forallb all_numeric xs = true).
+    { induction H as [|x l Hx Hl IH]; simpl.
+      - split; [intros _; split; [constructor | reflexivity] | intros _; constructor].
+      - rewrite andb_true_iff. split.
+        + intros K. inversion K; subst. apply Hx in H1. apply IH in H2.
+          destruct H1, H2. repeat split; auto.
+        + intros [K1 [K2 K3]]. inversion K1; subst. constructor; [apply Hx; auto | apply IH; auto]. }
+    rewrite E. tauto.
+  - rewrite CoeffTree_dict, Regular_dict.
+    change (all_numeric (ADict kvs)) with
+      (forallb (fun kv : nat * aval => match kv with (_, x) => all_numeric x end) kvs).
+    assert (E : Forall (fun kv => CoeffTree (snd kv)) kvs <->
+                Forall (fun kv => Regular (snd kv)) kvs /\
+                forallb (fun kv : nat * aval => match kv with (_, x) => all_numeric x end) kvs = true).
+    { induction H as [|[k x] l Hx Hl IH]; simpl.
+      - split; [intros _; split; [constructor | reflexivity] | intros _; constructor].
+      - simpl in Hx. rewrite andb_true_iff. split.
+        + intros K. inversion K; subst. simpl in H1. apply Hx in H1. apply IH in H2.
+          destruct H1, H2. repeat split; auto.
+        + intros [K1 [K2 K3]]. inversion K1; subst. simpl in H1.
+          constructor; [simpl; apply Hx; auto | apply IH; auto]. }
+    rewrite E. tauto.
+  - destruct H as [H|H]; [|subst; simpl; tauto].
+    destruct a; simpl in H; try discriminate; simpl; intuition discriminate.
+Qed.
+
+Lemma shapetree_list : forall xs ys,
+    shapetree_eqb (AList xs) (AList ys) = forall2b shapetree_eqb xs ys.
+Proof.
+  induction xs as [|x xs IH]; intros [|y ys]; simpl; auto.
+  specialize (IH ys). simpl in IH. rewrite IH. reflexivity.
+Qed.
+
+Lemma shapetree_tuple : forall xs ys,
+    shapetree_eqb (ATuple xs) (ATuple ys) = forall2b shapetree_eqb xs ys.
+Proof.
+  assert (G : forall xs ys,
+             (fix go (xs ys : list aval) : bool :=
+                match xs, ys with
+                | [], [] => true
+                | x :: xs', y :: ys' => shapetree_eqb x y && go xs' ys'
+                | _, _ => false
+                end) xs ys = forall2b shapetree_eqb xs ys).
+  { induction xs as [|x xs IH]; intros [|y ys]; simpl; try reflexivity. rewrite IH. reflexivity. }
+  intros [|x xs] [|y ys]; simpl; try reflexivity. rewrite G. reflexivity.
+Qed.
+
+Fixpoint forall2b_kv (p : aval -> aval -> bool) (xs ys : list (nat * aval)) : bool :=
+  match xs, ys with
+  | [], [] => true
+  | (k, x) :: xs', (k', y) :: ys' => Nat.eqb k k' && p x y && forall2b_kv p xs' ys'
+  | _, _ => false
+  end.
+
+Lemma shapetree_dict : forall xs ys,
+    shapetree_eqb (ADict xs) (ADict ys) = forall2b_kv shapetree_eqb xs ys.
+Proof.
+  induction xs as [|[k x] xs IH]; intros [|[k' y] ys]; simpl; auto.
+  specialize (IH ys). simpl in IH. rewrite IH. reflexivity.
+Qed.
+
+(* on coefficient trees Python's == of the shape trees is exactly SameShape *)
+Lemma shapetree_sameshape : forall a b,
+    CoeffTree a -> CoeffTree b -> (shapetree_eqb a b = true <-> SameShape a b).
+Proof.
+  induction a using aval_ind'; intros b Ha Hb.
+  - apply CoeffTree_list in Ha. destruct Ha as [Hne Ha].
+    destruct b; try (destruct xs; [congruence|]; simpl; split; [discriminate | tauto]).
+    apply CoeffTree_list in Hb. destruct Hb as [Hne' Hb].
+    rewrite shapetree_list, SameShape_list.
+    assert (E : forall ys, Forall CoeffTree ys -> (forall2b shapetree_eqb xs ys = true <-> Forall2 SameShape xs ys)).
+    { clear Hne Hne' Hb. induction H as [|x l Hx Hl IH]; intros [|y ys] Hys; simpl.
+      - split; auto.
+      - split; [discriminate | intros K; inversion K].
+      - split; [discriminate | intros K; inversion K].
+      - inversion Ha as [|? ? Hax Hal]; subst. inversion Hys as [|? ? Hyy Hyl]; subst.
+        rewrite andb_true_iff, (Hx y Hax Hyy), (IH Hal ys Hyl).
+        split; [intros [A B]; constructor; auto | intros K; inversion K; auto]. }
+    rewrite (E xs0 Hb). tauto.
+  - apply CoeffTree_tuple in Ha. destruct Ha as [Hne Ha].
+    destruct b; try (destruct xs; [congruence|]; simpl; split; [discriminate | tauto]).
+    apply CoeffTree_tuple in Hb. destruct Hb as [Hne' Hb].
+    rewrite shapetree_tuple, SameShape_tuple.
+    assert (E : forall ys, Forall CoeffTree ys -> (forall2b shapetree_eqb xs ys = true <-> Forall2 SameShape xs ys)).
+    { clear Hne Hne' Hb. induction H as [|x l Hx Hl IH]; intros [|y ys] Hys; simpl.
+      - split; auto.
+      - split; [discriminate | intros K; inversion K].
+      - split; [discriminate | intros K; inversion K].
+      - inversion Ha as [|? ? Hax Hal]; subst. inversion Hys as [|? ? Hyy Hyl]; subst.
+        rewrite andb_true_iff, (Hx y Hax Hyy), (IH Hal ys Hyl).
+        split; [intros [A B]; constructor; auto | intros K; inversion K; auto]. }
+    rewrite (E xs0 Hb). tauto.
+  - apply CoeffTree_dict in Ha. destruct Ha as [Hne Ha].
+    destruct b; try (simpl; split; [discriminate | tauto]).
+    apply CoeffTree_dict in Hb. destruct Hb as [Hne' Hb].
+    rewrite shapetree_dict, SameShape_dict.
+    assert (E : forall ys, Forall (fun kv => CoeffTree (snd kv)) ys ->
+                           (forall2b_kv shapetree_eqb kvs ys = true <-> Forall2kv SameShape kvs ys)).
+    { clear Hne Hne' Hb. induction H as [|[k x] l Hx Hl IH]; intros [|[k' y] ys] Hys; simpl.
+      - split; [constructor | auto].
+      - split; [discriminate | intros K; inversion K].
+      - split; [discriminate | intros K; inversion K].
+      - inversion Ha as [|? ? Hax Hal]; subst. inversion Hys as [|? ? Hyy Hyl]; subst. simpl in *.
+        rewrite !andb_true_iff, Nat.eqb_eq, (Hx y Hax Hyy), (IH Hal ys Hyl).
+        split; [intros [[A B] C]; subst; constructor; auto | intros K; inversion K; subst; auto]. }
+    rewrite (E kvs0 Hb). tauto.
+  - destruct H as [H|H]; [|subst; simpl in Ha; contradiction].
+    destruct a; simpl in H; try discriminate; simpl in Ha; try contradiction;
+      (destruct b as [s0 d0| | | |ys|ys|ys| | | | | | |]; simpl in Hb; try contradiction;
+       [ simpl; rewrite ?andb_true_iff, ?shape_eqb_eq; intuition (try discriminate; auto)
+       | simpl; rewrite ?andb_true_iff, ?shape_eqb_eq; intuition (try discriminate; auto)
+       | simpl; rewrite ?andb_true_iff, ?shape_eqb_eq; intuition (try discriminate; auto)
+       | simpl; rewrite ?andb_true_iff, ?shape_eqb_eq; intuition (try discriminate; auto)
+       | simpl; split; [discriminate | tauto]
+       | destruct ys as [|y ys]; [destruct Hb as [Hb _]; congruence|]; simpl; split; [discriminate | tauto]
+       | simpl; split; [discriminate | tauto] ]).
+Qed.
+
+Lemma SameShape_refl : forall a, CoeffTree a -> SameShape a a.
+Proof.
+  induction a using aval_ind'; intros Ha.
+  - apply CoeffTree_list in Ha. destruct Ha as [Hne Ha]. apply SameShape_list. split; [exact Hne|].
+    clear Hne. induction H as [|x l Hx Hl IH]; [constructor|]. inversion Ha; subst. constructor; auto.
+  - apply CoeffTree_tuple in Ha. destruct Ha as [Hne Ha]. apply SameShape_tuple. split; [exact Hne|].
+    clear Hne. induction H as [|x l Hx Hl IH]; [constructor|]. inversion Ha; subst. constructor; auto.
+  - apply CoeffTree_dict in Ha. destruct Ha as [Hne Ha]. apply SameShape_dict. split; [exact Hne|].
+    clear Hne. induction H as [|[k x] l Hx Hl IH]; [constructor|]. inversion Ha; subst. constructor; auto.
+  - destruct H as [H|H]; [|subst; simpl in Ha; contradiction].
+    destruct a; simpl in H; try discriminate; simpl in Ha; try contradiction; simpl; auto.
+Qed.
+
+Lemma SameShape_sym : forall a b, SameShape a b -> SameShape b a.
+Proof.
+  induction a using aval_ind'; intros b Hab.
+  - destruct b; try (simpl in Hab; tauto).
+    apply SameShape_list in Hab. destruct Hab as [Hne Hab]. apply SameShape_list.
+    split; [intros ->; inversion Hab; subst; congruence|].
+    clear Hne. revert xs0 Hab. induction H as [|x l Hx Hl IH]; intros ys Hab; inversion Hab; subst; constructor; auto.
+  - destruct b; try (simpl in Hab; tauto).
+    apply SameShape_tuple in Hab. destruct Hab as [Hne Hab]. apply SameShape_tuple.
+    split; [intros ->; inversion Hab; subst; congruence|].
+    clear Hne. revert xs0 Hab. induction H as [|x l Hx Hl IH]; intros ys Hab; inversion Hab; subst; constructor; auto.
+  - destruct b; try (simpl in Hab; tauto).
+    apply SameShape_dict in Hab. destruct Hab as [Hne Hab]. apply SameShape_dict.
+    split; [intros ->; inversion Hab; subst; congruence|].
+    clear Hne. revert kvs0 Hab. induction H as [|[k x] l Hx Hl IH]; intros ys Hab; inversion Hab; subst; constructor; auto.
+  - destruct H as [H|H]; [|subst; simpl in Hab; destruct Hab as [K _]; contradiction].
+    assert (S1 : Numeric a /\ Numeric b /\ shape_of a = shape_of b)
+      by (destruct a; simpl in H; try discriminate; destruct b; simpl in Hab; tauto).
+    destruct S1 as [N1 [N2 Sh]].
+    destruct b; simpl in N2; try contradiction; simpl; auto.
+Qed.
+
+Lemma SameShape_coefftree_r : forall a b, SameShape a b -> CoeffTree b.
+Proof.
+  induction a using aval_ind'; intros b Hab.
+  - destruct b; try (simpl in Hab; tauto).
+    apply SameShape_list in Hab. destruct Hab as [Hne Hab]. apply CoeffTree_list.
+    split; [intros ->; inversion Hab; subst; congruence|].
+    clear Hne. revert xs0 Hab. induction H as [|x l Hx Hl IH]; intros ys Hab; inversion Hab; subst; constructor; auto.
+  - destruct b; try (simpl in Hab; tauto).
+    apply SameShape_tuple in Hab. destruct Hab as [Hne Hab]. apply CoeffTree_tuple.
+    split; [intros ->; inversion Hab; subst; congruence|].
+    clear Hne. revert xs0 Hab. induction H as [|x l Hx Hl IH]; intros ys Hab; inversion Hab; subst; constructor; auto.
+  - destruct b; try (simpl in Hab; tauto).
+    apply SameShape_dict in Hab. destruct Hab as [Hne Hab]. apply CoeffTree_dict.
+    split; [intros ->; inversion Hab; subst; congruence|].
+    clear Hne. revert kvs0 Hab. induction H as [|[k x] l Hx Hl IH]; intros ys Hab; inversion Hab; subst; constructor; simpl; auto.
+  - destruct H as [H|H]; [|subst; simpl in Hab; destruct Hab as [K _]; contradiction].
+    assert (S1 : Numeric a /\ Numeric b /\ shape_of a = shape_of b)
+      by (destruct a; simpl in H; try discriminate; destruct b; simpl in Hab; tauto).
+    destruct S1 as [N1 [N2 Sh]].
+    destruct b; simpl in N2; try contradiction; simpl; auto.
+Qed.
+
+Lemma verify_seq_reflects : forall xs,
+    xs <> [] -> Forall CoeffTree xs ->
+    ((match xs with
+      | [] => ValueErr
+      | x0 :: _ => if forallb (fun xi => shapetree_eqb xi x0) xs then Accept else ValueErr
+      end) = Accept
+     <-> match xs with c :: cs => CoeffTree c /\ Forall (SameShape c) cs | [] => False end).
+Proof.
+  intros [|c cs] Hne Hall; [congruence|]. inversion Hall as [|c' cs' Hc Hcs]; subst.
+  assert (E : forall l, Forall CoeffTree l ->
+                        (forallb (fun xi => shapetree_eqb xi c) l = true <-> Forall (SameShape c) l)).
+  { induction l as [|x l IH]; intros Hl; simpl.
+    - split; auto.
+    - inversion Hl; subst. rewrite andb_true_iff, (shapetree_sameshape x c H1 Hc), (IH H2).
+      split.
+      + intros [A B]. constructor; [apply SameShape_sym; exact A | exact B].
+      + intros K. inversion K; subst. split; [apply SameShape_sym; assumption | assumption]. }
+  destruct (forallb (fun xi => shapetree_eqb xi c) (c :: cs)) eqn:F.
+  - apply (E (c :: cs) Hall) in F. inversion F; subst. tauto.
+  - split; [discriminate|]. intros [_ K].
+    assert (F' : forallb (fun xi => shapetree_eqb xi c) (c :: cs) = true).
+    { apply (E (c :: cs) Hall). constructor; [apply SameShape_refl; exact Hc | exact K]. }
+    congruence.
+Qed.
+
+Lemma verify_reflects : forall x,
+    Regular x -> all_numeric x = true -> (forall kvs, x <> ADict kvs) ->
+    (verify x = Accept <-> WfTcoeffs x).
+Proof.
+  intros x Hr Hn Hd.
+  assert (Hc : CoeffTree x) by (apply coefftree_regular_numeric; auto).
+  destruct x; try (simpl; unfold WfTcoeffs; simpl; split; [discriminate | tauto]).
+  - apply CoeffTree_list in Hc. destruct Hc as [Hne Hc].
+    unfold verify, WfTcoeffs, coefficients. apply verify_seq_reflects; auto.
+  - apply CoeffTree_tuple in Hc. destruct Hc as [Hne Hc].
+    unfold verify, WfTcoeffs, coefficients. apply verify_seq_reflects; auto.
+  - exfalso. apply (Hd kvs). reflexivity.
+Qed.
+
+(* the gaps of verify_taylor_coefficient_pytree on its own *)
+Lemma verify_accepts_dict_container_refuted :
+  exists x, verify x = Accept /\ ~ WfTcoeffs x.
+Proof.
+  exists (ADict [(0, AArr [3] DFloat); (1, AArr [3] DFloat)]).
+  split; [reflexivity | rewrite <- wf_tcoeffs_b_spec; vm_compute; discriminate].
+Qed.
+
+Lemma verify_confuses_empty_tuple_with_scalar_refuted :
+  exists x, verify x = Accept /\ ~ WfTcoeffs x.
+Proof.
+  exists (AList [AArr [] DFloat; ATuple []]).
+  split; [reflexivity | rewrite <- wf_tcoeffs_b_spec; vm_compute; discriminate].
+Qed.
+
+Lemma verify_accepts_function_leaves_refuted :
+  exists x, verify x = Accept /\ ~ WfTcoeffs x.
+Proof.
+  exists (AList [AFun; AFun]).
+  split; [reflexivity | rewrite <- wf_tcoeffs_b_spec; vm_compute; discriminate].
+Qed.
+
+(* ---- explicit standard deviations: from_mean_and_std does not compare std with mean *)
+Definition ex_mean : aval := AList [AArr [3] DFloat; AArr [3] DFloat].
+
+Lemma prior_iwp_diffuse_dense_ignores_std_structure_refuted :
+  exists mean std, prior_iwp_diffuse Dense mean std ANone = Accept /\ ~ WfPriorDiffuse Dense mean std ANone.
+Proof.
+  exists ex_mean, (AList [AList [AArr [3] DFloat; AArr [3] DFloat]]).
+  split; [vm_compute; reflexivity | rewrite <- wf_prior_diffuse_b_spec; vm_compute; discriminate].
+Qed.
+
+Lemma prior_iwp_diffuse_dense_accepts_dict_std_refuted :
+  exists mean std, prior_iwp_diffuse Dense mean std ANone = Accept /\ ~ WfPriorDiffuse Dense mean std ANone.
+Proof.
+  exists ex_mean, (ADict [(0, AArr [3] DFloat); (1, AArr [3] DFloat)]).
+  split; [vm_compute; reflexivity | rewrite <- wf_prior_diffuse_b_spec; vm_compute; discriminate].
+Qed.
+
+Lemma prior_iwp_diffuse_dense_ignores_std_rank_refuted :
+  exists mean std, prior_iwp_diffuse Dense mean std ANone = Accept /\ ~ WfPriorDiffuse Dense mean std ANone.
+Proof.
+  exists ex_mean, (AList [AArr [1; 3] DFloat; AArr [1; 3] DFloat]).
+  split; [vm_compute; reflexivity | rewrite <- wf_prior_diffuse_b_spec; vm_compute; discriminate].
+Qed.
+
+Lemma prior_iwp_diffuse_blockdiag_broadcasts_short_std_refuted :
+  exists mean std, prior_iwp_diffuse BlockDiag mean std ANone = Accept /\ ~ WfPriorDiffuse BlockDiag mean std ANone.
+Proof.
+  exists ex_mean, (AList [AArr [3] DFloat]).
+  split; [vm_compute; reflexivity | rewrite <- wf_prior_diffuse_b_spec; vm_compute; discriminate].
+Qed.
+
+Lemma prior_iwp_diffuse_blockdiag_ignores_std_rank_refuted :
+  exists mean std, prior_iwp_diffuse BlockDiag mean std ANone = Accept /\ ~ WfPriorDiffuse BlockDiag mean std ANone.
+Proof.
+  exists ex_mean, (AList [AArr [1; 3] DFloat; AArr [1; 3] DFloat]).
+  split; [vm_compute; reflexivity | rewrite <- wf_prior_diffuse_b_spec; vm_compute; discriminate].
+Qed.
+
+(* the dense prior constructor accepts a scalar coefficient next to an empty tuple
+   (Python: () == ()); the object it returns fails at first use *)
+Lemma prior_iwp_dense_empty_tuple_refuted :
+  exists tc, prior_iwp Dense tc APyBool ANone = Accept /\ ~ WfPriorIwp Dense tc APyBool ANone.
+Proof.
+  exists (AList [AArr [] DFloat; ATuple []]).
+  split; [vm_compute; reflexivity | rewrite <- wf_prior_iwp_b_spec; vm_compute; discriminate].
+Qed.
+
+(* documented behaviour, not a gap: one scalar flag per leaf is well-formed *)
+Lemma scalar_flags_are_wellformed_and_accepted :
+  WfPriorIwp Dense ex_mean (AList [AArr [] DBool; AArr [3] DBool]) ANone /\
+  prior_iwp Dense ex_mean (AList [AArr [] DBool; AArr [3] DBool]) ANone = Accept.
+Proof.
+  split; [apply wf_prior_iwp_b_spec; vm_compute; reflexivity | vm_compute; reflexivity].
+Qed.
+
+(* broadcastable-but-wrong flags are rejected: shape (1,) against a leaf of shape (3,) *)
+Lemma broadcastable_flags_are_rejected :
+  prior_iwp Dense ex_mean (AList [AArr [1] DBool; AArr [3] DBool]) ANone = ValueErr /\
+  prior_iwp BlockDiag ex_mean (AList [AArr [1] DBool; AArr [3] DBool]) ANone = ValueErr /\
+  prior_iwp Isotropic ex_mean (AList [AArr [1] DBool; AArr [] DBool]) ANone = ValueErr.
+Proof. repeat split; vm_compute; reflexivity. Qed.
+
+(* ------------------------------------------------------- Part 3: Examples *)
+Example ex_verify_accepts : verify ex_mean = Accept /\ WfTcoeffs ex_mean.
+Proof. split; [reflexivity | apply wf_tcoeffs_b_spec; vm_compute; reflexivity]. Qed.
+Example ex_verify_hyp : Regular ex_mean /\ all_numeric ex_mean = true /\ (forall kvs, ex_mean <> ADict kvs).
+Proof. repeat split; simpl; try discriminate; auto. Qed.
+Example ex_verify_rejects_array : verify (AArr [2; 3] DFloat) = TypeErr /\ ~ WfTcoeffs (AArr [2; 3] DFloat).
+Proof. split; [reflexivity | rewrite <- wf_tcoeffs_b_spec; vm_compute; discriminate]. Qed.
+Example ex_verify_rejects_ragged :
+  verify (AList [AArr [3] DFloat; AArr [2] DFloat]) = ValueErr /\ ~ WfTcoeffs (AList [AArr [3] DFloat; AArr [2] DFloat]).
+Proof. split; [reflexivity | rewrite <- wf_tcoeffs_b_spec; vm_compute; discriminate]. Qed.
+
+Example ex_prior_iwp_accepts :
+  forall f, prior_iwp f ex_mean APyBool ANone = Accept /\ WfPriorIwp f ex_mean APyBool ANone.
+Proof. intros []; (split; [vm_compute; reflexivity | apply wf_prior_iwp_b_spec; vm_compute; reflexivity]). Qed.
+Example ex_prior_iwp_float_flags_TypeError :
+  forall f, prior_iwp f ex_mean (AList [AArr [] DFloat; AArr [] DBool]) ANone = TypeErr.
+Proof. intros []; vm_compute; reflexivity. Qed.
+Example ex_prior_iwp_wrong_scale :
+  prior_iwp Dense ex_mean APyBool (AArr [] DFloat) = ValueErr /\
+  prior_iwp BlockDiag ex_mean APyBool (AArr [1] DFloat) = ValueErr /\
+  prior_iwp Isotropic ex_mean APyBool (AArr [3] DFloat) = ValueErr /\
+  prior_iwp Dense ex_mean APyBool (AList [AArr [3] DFloat]) = TypeErr /\
+  prior_iwp Isotropic ex_mean APyBool (AList [AArr [] DFloat]) = TypeErr.
+Proof. repeat split; vm_compute; reflexivity. Qed.
+Example ex_prior_iwp_custom_scale :
+  prior_iwp Dense ex_mean APyBool (AArr [3] DFloat) = Accept /\
+  prior_iwp Isotropic ex_mean APyBool APyFloat = Accept.
+Proof. split; vm_compute; reflexivity. Qed.
+
+Example ex_prior_exp_accepts :
+  prior_exp Dense (AJetOdeAuto 2) ex_mean APyBool ANone = Accept /\
+  WfPriorExp Dense (AJetOdeAuto 2) ex_mean APyBool ANone.
+Proof. split; [vm_compute; reflexivity | apply wf_prior_exp_b_spec; vm_compute; reflexivity]. Qed.
+Example ex_prior_exp_rejects :
+  prior_exp Dense (AJetOdeAuto 3) ex_mean APyBool ANone = TypeErr /\
+  ~ WfPriorExp Dense (AJetOdeAuto 3) ex_mean APyBool ANone.
+Proof. split; [vm_compute; reflexivity | rewrite <- wf_prior_exp_b_spec; vm_compute; discriminate]. Qed.
+Example ex_prior_exp_plain_function : prior_exp Dense AFun ex_mean APyBool ANone = OtherErr.
+Proof. vm_compute. reflexivity. Qed.
+
+Example ex_transition_accepts :
+  transition_check [] (AArr [] DFloat) = Accept /\ WfCal [] (AArr [] DFloat).
+Proof. split; [reflexivity | apply transition_check_reflects; reflexivity]. Qed.
+Example ex_transition_rejects :
+  transition_check [] (AArr [1] DFloat) = ValueErr /\ ~ WfCal [] (AArr [1] DFloat).
+Proof. split; [reflexivity | rewrite <- transition_check_reflects; vm_compute; discriminate]. Qed.
+Example ex_transition_more :
+  transition_check [] APyFloat = Accept /\
+  transition_check [3] (AArr [3] DFloat) = Accept /\
+  transition_check [3] (AArr [] DFloat) = ValueErr /\
+  transition_check [] AFun = OtherErr.
+Proof. repeat split; reflexivity. Qed.
+
+Example ex_gates :
+  gate_jetode (AJetOde 1) = Accept /\ IsJetOde (AJetOde 1) /\
+  gate_jetode AFun = TypeErr /\ ~ IsJetOde AFun /\
+  gate_jetresidual (AJetResidual 2) = Accept /\ gate_jetresidual (AJetOde 1) = TypeErr /\
+  gate_posterior AMarkovSeq = Accept /\ gate_posterior ANormal = TypeErr.
+Proof.
+  repeat split; try reflexivity.
+  - exists 1. reflexivity.
+  - intros [k K]. discriminate.
+Qed.
+
+Example ex_lift :
+  lift_residual_use 2 5 3 = Accept /\ lift_in_range 2 5 3 /\
+  lift_residual_use 2 5 4 = ValueErr /\ ~ lift_in_range 2 5 4 /\
+  lift_residual_use 2 5 (-1) = ValueErr /\ lift_construct None = TypeErr.
+Proof. unfold lift_in_range. repeat split; try reflexivity; lia. Qed.
+
+Example ex_loss :
+  CoeffTree (AArr [3; 2] DFloat) /\
+  loss_std_check (AArr [3; 2] DFloat) (AArr [3; 2] DFloat) = Accept /\
+  loss_std_check (AArr [2; 2] DFloat) (AArr [3; 2] DFloat) = ValueErr /\
+  ~ WfLossStd (AArr [2; 2] DFloat) (AArr [3; 2] DFloat) /\
+  loss_std_check (AList [AArr [3; 2] DFloat]) (AArr [3; 2] DFloat) = ValueErr.
+Proof.
+  repeat split; try (vm_compute; reflexivity); try exact I.
+  unfold WfLossStd. rewrite <- sameshape_b_spec. vm_compute. discriminate.
+Qed.
+
+Example ex_error_residual :
+  error_residual_check Isotropic 3 3 = Accept /\ error_residual_check Isotropic 1 3 = ValueErr /\
+  error_residual_check Dense 2 3 = ValueErr /\ error_residual_check Dense 1 3 = Accept.
+Proof. repeat split; reflexivity. Qed.
+
+Example ex_matfree : matfree_check 3 3 = Accept /\ matfree_check 2 3 = ValueErr.
+Proof. split; reflexivity. Qed.
+
+Example ex_warn :
+  warns SFixedInterval (RSaveAt true) = true /\ warns SFixedPoint RFixedGrid = true /\
+  warns SFilter (RSaveAt true) = false /\ warns SFixedPoint (RSaveAt true) = false /\
+  warns SFixedInterval (RSaveAt false) = false.
+Proof. repeat split; reflexivity. Qed.
